@@ -10,9 +10,11 @@ for d in */; do
   cs=""
   grep -q "+++ b/.*scale_up.go" $n/patch.diff && cs="$cs C04 C07"
   grep -q "+++ b/.*scale_down.go" $n/patch.diff && cs="$cs C01 C03 C10"
-  grep -q "+++ b/pkg/controller/controller.go" $n/patch.diff && cs="$cs C06 C20"
+  grep -q "+++ b/pkg/controller/controller.go" $n/patch.diff && cs="$cs C06 C09 C20"
   grep -q "+++ b/cmd/main.go" $n/patch.diff && cs="$cs C11 C12 C16 C17"
   grep -q "+++ b/pkg/controller/util.go" $n/patch.diff && cs="$cs C05 C13"
-  grep -q "+++ b/pkg/k8s/taint.go" $n/patch.diff && cs="$cs C15"
+  grep -q "+++ b/pkg/k8s/taint.go" $n/patch.diff && cs="$cs C15 C01"
+  grep -q "+++ b/pkg/controller/scale_lock.go" $n/patch.diff && cs="$cs C02"
+  grep -q "+++ b/pkg/cloudprovider/aws/aws.go" $n/patch.diff && cs="$cs C17 C19"
   [ -n "$cs" ] && echo "$n $cs"
 done | xargs -P ${1:-3} -L 1 $V/tools/tryharmless.sh
